@@ -130,7 +130,7 @@ fn run_on(f: &mut Box<dyn DynFilt>, ins: &[Vec<Rat>]) -> Result<Vec<Vec<Rat>>, S
 fn hists(rng: &mut Rng, t: bool, arity: usize) -> Vec<(Vec<Rat>, Vec<Rat>)> {
     let al = [Rat::int(0), Rat::int(2), Rat::int(5)];
     let mut v = vec![];
-    for hl in 0..=(if t { 4 } else { 3 }) { for h in super::all_seqs(&al, hl * arity) {
+    for hl in 0..=(if t { 4 } else { 3 }) { for h in crate::util::all_seqs(&al, hl * arity) {
         for _ in 0..2 { let p: Vec<Rat> = (0..(if t { 6 } else { 5 }) * arity).map(|_| al[rng.below(3) as usize]).collect(); v.push((h.clone(), p)); } } }
     for _ in 0..(if t { 60 } else { 12 }) {
         let hl = rng.range(4, if t { 40 } else { 14 }) as usize;
@@ -195,7 +195,7 @@ impl AndRef for Outcome { fn and_ref(self, out: &[Vec<Rat>], reference: &[Vec<Ra
 
 // float exactness of copies: original and copy fed the SAME continuation must answer bit-identically
 fn float_copy(name: &str, mode: &str, hist: &[f64], cont: &[f64]) -> Outcome {
-    use crate::props::conv::f64_exact;
+    use crate::util::f64_exact;
     fn drive<F: Filter<f32, Output = f32> + Clone + FromGuts + IntoGuts>(mut f: F, mode: &str, hist: &[f64], cont: &[f64]) -> (Vec<f64>, Vec<f64>) {
         for x in hist { f.filter(*x as f32); }
         let mut c = if mode == "clone" { f.clone() } else { F::from_guts(f.clone().into_guts()) };
@@ -253,7 +253,7 @@ pub fn gen20(tier: &str, rng: &mut Rng) -> Vec<Spec> {
             v.push(Spec::new("copyf").with("entry", name).with("mode", mode).with("scale", if k % 4 < 2 { 1 } else { 1000 }).with("xs", h.join(",")).with("ys", cont.join(",")));
         } } }
     // source Cache over a finite source: every program of pulls (0) and cached() reads (1) up to length 6 (7)
-    for items in [vec![], vec![3i64], vec![3, 1, 4]] { for l in 1..=(if t { 7 } else { 6 }) { for ops in super::all_seqs(&[0i64, 1], l) {
+    for items in [vec![], vec![3i64], vec![3, 1, 4]] { for l in 1..=(if t { 7 } else { 6 }) { for ops in crate::util::all_seqs(&[0i64, 1], l) {
         v.push(Spec::new("cache_source").with("xs", join(&items)).with("ops", join(&ops))); } } }
     for (name, cfgs, arity) in catalogue() { for cfg in &cfgs { for (i, (h, a)) in hists(rng, t, arity).into_iter().enumerate() {
         let b: Vec<Rat> = a.iter().rev().map(|x| *x + Rat::int(1)).collect();
